@@ -1,7 +1,7 @@
 (* Entry.v — single extracted entry point [run]: request = VList [VStr name; arg].
    All marshalling is done here in Gallina so that ocaml/driver.ml stays generic. *)
 From Coq Require Import ZArith List Bool String Ascii.
-From Verif Require Import PyStr Normalize NormalizeGen Util UtilGen.
+From Verif Require Import PyStr Normalize NormalizeGen Util UtilGen Toc TocGen.
 Import ListNotations.
 Open Scope Z_scope.
 
@@ -13,6 +13,18 @@ Definition is_name (n : str) (s : string) : bool := str_eqb n (z_of_string s).
 Definition vstrs (l : list str) : pval := VList (map VStr l).
 
 Definition VErr (s : string) : pval := VList [VStr (z_of_string "error"); VStr (z_of_string s)].
+
+Definition toc_entry (v : pval) : option (nat * str * str) :=
+  match v with VList [VInt l; VStr i; VStr t] => Some (Z.to_nat l, i, t) | _ => None end.
+
+Fixpoint opt_all {A} (l : list (option A)) : option (list A) :=
+  match l with
+  | [] => Some []
+  | Some x :: l' => match opt_all l' with Some r => Some (x :: r) | None => None end
+  | None :: _ => None
+  end.
+
+Definition vnat (n : nat) : pval := VInt (Z.of_nat n).
 
 Definition run_named (name : str) (arg : pval) : pval :=
   if is_name name "norm" then
@@ -32,6 +44,20 @@ Definition run_named (name : str) (arg : pval) : pval :=
     match arg with VStr s => VStr (safe_entity T escape_ops s) | _ => VErr "arg" end
   else if is_name name "unikey" then
     match arg with VStr s => VStr (run_unikey T unikey_ops s) | _ => VErr "arg" end
+  else if is_name name "toc_render" then
+    match arg with
+    | VList l => match opt_all (map toc_entry l) with
+                 | Some toc => VStr (render_toc_ul toc_P toc) | None => VErr "arg" end
+    | _ => VErr "arg" end
+  else if is_name name "toc_hook_items" then
+    match arg with
+    | VList [r; VList toks] =>
+      let range := match r with VList [VInt a; VInt b] => Some (Z.to_nat a, Z.to_nat b) | _ => None end in
+      let tokens := map (fun t => match t with VInt l => Some (Z.to_nat l) | _ => None end) toks in
+      VList (map (fun it : nat * nat * nat =>
+                    VList [vnat (fst (fst it)); vnat (snd (fst it)); VStr (toc_id toc_id_prefix (snd it))])
+                 (hook_items range tokens))
+    | _ => VErr "arg" end
   else VErr "unknown function".
 
 Definition run (req : pval) : pval :=
